@@ -96,6 +96,14 @@ def check(m, steps, rec, T):
                         v = getattr(f.metadata, k, None)
                         if v and valid_name(v) and norm(v.strip()) in txt:
                             founded = True
+            if not founded and mode == "markup" and c.span() not in plain_ref_spans \
+                    and any(not isinstance(x, str) for x in steps):
+                # a custom callable step that rewrites the text (deletes years, respells a reporter) leaves the
+                # markup -> plain translation of a markup-derived reference to a diff between texts that differ by
+                # more than inserted material: only monotone / in-range is promised there (C10's statement), so
+                # the exact-name clause is decided for the shipped cleaners only; range and order were checked
+                rec.count("markup_reference_through_rewriting_callable_not_judged")
+                continue
             if not founded:
                 rec.violation("C19.reference_unfounded", dict(case, mode=mode),
                               observed=dict(text_at_span=plain[s0:s1], span=(s0, s1),
